@@ -22,3 +22,36 @@ ASSUMPTIONS = ASSUMPTIONS + [TIE_ASSUMPTION]
 
 def modes(tier):
     return [RelayMode("C11"), RawMode()]
+
+
+# "…or leaves the server unable to answer the next request": the same API under load. Windows of the C12 stress mix (16 goroutines: session /
+# deny / allow / list / status requests, websocket joins, traffic, disconnects against one relay); judged here only on answers: every request
+# answered, the instance not stuck.
+import c12 as _c12
+import vlib
+
+
+class StressForC11(_c12.StressMode):
+    name = "stress"
+
+    def generate(self, rng, tier):
+        if tier == "quick":
+            return [[f"stress {ms} {rng.randrange(10**6)} 16"] for ms in (700, 1200)]
+        return [[f"stress {ms} {rng.randrange(10**6)} {w}"] for ms in (1000, 2000, 4000) for w in (16, 32)]
+
+    def run_impl(self, impl_exe, cases, tier):
+        return vlib.run_cases_isolating([impl_exe, "stress"], cases, timeout=600, env=vlib.GOENV, chunk=1)
+
+    def oracle(self, case, out):
+        return [(("api-stops-answering-under-load" if k.startswith("process-fault") else k), m) for k, m in _c12.StressMode.oracle(self, case, out)
+                if k.startswith("process-fault") or k.startswith("request-not-answered")]
+
+
+_modes_c11 = modes
+
+
+def modes(tier):
+    return _modes_c11(tier) + [StressForC11()]
+
+RULE = RULE + (" stress mode: windows of 16 concurrent goroutines mixing every API request with websocket joins, traffic and disconnects against "
+               "one relay; every request must be answered and the instance must not get stuck.")
